@@ -559,6 +559,44 @@ class Engine:
             _, seq = seq.m_append(cx, it)
         return seq
 
+    def eval_ListComp(self, e, cx):
+        """[elt for tgt in iterable]  (one generator, no filter)  ->  fresh sequence r with
+        len r == len iterable and r[k] == elt(iterable[k]); exceptions raised by `elt` for some k
+        become exceptional branches, the normal path assumes they occur for no k."""
+        if len(e.generators) != 1 or e.generators[0].ifs or e.generators[0].is_async:
+            raise Unsupported("comprehension with filter / several generators")
+        gen = e.generators[0]
+        src = self.eval(gen.iter, cx)
+        ordn = getattr(self, "_comp_ord", 0)
+        self._comp_ord = ordn + 1
+        gname = self.c.extra.get("comp_result_ghost", {}).get(ordn)
+        if gname is not None:
+            cx.st.env[gname] = src
+        it = self.iterate(src, cx)
+        for ax in it.axioms:
+            cx.assume(ax)
+        k = FreshConst(IntS, "kc")
+        sub = cx.st.fork()
+        n0 = len(sub.hyps)
+        sub.hyps += [0 <= k, k < it.n]
+        scx = Ctx(self, sub, e)
+        scx.guards = list(cx.guards)
+        self.assign(gen.target, it.elem(k), scx)
+        v = self.eval(e.elt, scx)
+        for est, out in scx.raised:
+            cx.raised.append((est, out))
+        inner = sub.hyps[n0 + 2:]
+        rng = z3.And(0 <= k, k < it.n)
+        if not getattr(v.ty, "single", False) or v.ty is None:
+            raise Unsupported("comprehension element type")
+        res = TSeq(v.ty).fresh("comp")
+        for ax in res.axioms:
+            cx.assume(ax)
+        cx.assume(res.n == it.n)
+        body = z3.And(*(inner + [res.at(k) == Vs._t(v)])) if inner else (res.at(k) == Vs._t(v))
+        cx.assume(z3.ForAll([k], z3.Implies(rng, body), patterns=[res.at(k)]))
+        return res
+
     def eval_Attribute(self, e, cx):
         obj = self.eval(e.value, cx)
         return self.getattr(obj, e.attr, cx, e)
@@ -888,14 +926,13 @@ class Engine:
         self.call_ordinals[c.qualname] = ordn + 1
         if c.ghost:
             g = self.c.call_ghost.get((c.qualname, ordn)) or self.c.call_ghost.get((c.qualname, None))
-            if g is None:
-                # ghost *outputs*: existential witnesses, fresh on the caller side
-                for gn, gty in c.ghost.items():
-                    fv = gty.fresh("gh_" + gn)
-                    actual[gn] = fv
-                    for ax in getattr(fv, "axioms", []):
-                        cx.assume(ax)
-            else:
+            # ghost *outputs* are existential witnesses: fresh on the caller side unless supplied
+            for gn, gty in c.ghost.items():
+                fv = gty.fresh("gh_" + gn)
+                actual[gn] = fv
+                for ax in getattr(fv, "axioms", []):
+                    cx.assume(ax)
+            if g is not None:
                 actual.update(g(NS(st.env), NS(self.pre_env)))
         pre = dict(actual)
         for ax in c.axioms:
